@@ -72,6 +72,11 @@ def gen_script(rng, kind, n_episodes=None, enabled=None, final_packets=None):
             tag -= n
             if rng.random() < 0.5:
                 e["end"] = {"k": "eof", "after": 13, "d": rng.choice([0.0, 1.0, 31.0])}
+            elif rng.random() < 0.6:
+                # a write that fails while the receive path is parked in its busy pause: the one situation in which the
+                # sender, not the receive loop, is first to learn that the link is gone
+                e["w"] = {"fail_at": rng.choice([0, 0, 1, 2]), "fail_exc": rng.choice(["reset", "etimedout", "epipe"])}
+                sends.append(len(script))
         elif f == "write_fail":
             # waveshare writes its configuration packet first (index 0)
             e["w"] = {"fail_at": rng.choice([0, 1, 1, 2, 3]), "fail_exc": rng.choice(["reset", "etimedout", "epipe"])}
